@@ -25,7 +25,7 @@ def c02() -> int:
         "default:DispatchBase>ReserveBase",
         "default:DispatchBase>Idle",
     ]
-    fsx(c, RES + ({"variant": "core"},), ("hivemc.bundles", "c02", {}), K=3 if quick else 4, H=7 if quick else 9, needs=needs)
+    fsx(c, RES + ({"variant": "core"},), ("hivemc.bundles", "c02", {}), K=3 if quick else 4, H=7 if quick else 8, needs=needs)
     fsx(c, GRID + ({"pairs": True},), ("hivemc.bundles", "c02", {}), K=2 if quick else 4, H=9 if quick else 11,
         needs=["default:DispatchStation>ChargeQueueing", "default:DispatchBase>ReserveBase"])
     # vehicles with idle draw: one holds the DCFC plug for many steps, a nearly empty one queues and runs dry while waiting
